@@ -4,11 +4,13 @@ Proof side: Properties/C01.v.  Correspondence: for every catalogue type and gene
 value, (a) implementation bytes == model bytes on the representation the implementation
 reports, (b) implementation decode of bytes++tail == model decode.  Property oracle
 (implementation only): from_val -> to_vec -> deserialize(bytes ++ tail) gives the same
-logical value and leaves exactly the tail."""
+logical value and leaves exactly the tail.  Recursive derived items (which have no type in the
+universe) go through lib/reccorr.py: same three comparisons at finite unfoldings."""
 import random
 from collections import Counter
 
 from codec import *  # noqa
+import reccorr
 
 PID = 'C01'
 
@@ -38,6 +40,7 @@ def run_oracle(exe, cases):
 
 def run(tier, seed, t0):
     coq = coq_property(PID)
+    coq = reccorr.rec_proofs(coq)      # Properties/C01rec.v: the theorems behind the finite-unfolding stage
     driver = ensure_driver()
     cfgs = ['std-strict', 'std-loose'] if tier == 'quick' else ['std-strict', 'std-loose', 'nostd-strict', 'nostd-loose']
     exes, disagreements = ensure_harnesses(cfgs)
@@ -77,6 +80,11 @@ def run(tier, seed, t0):
         stats['evaluations'] += len(ocases)
         if not stats['samples']:
             stats['samples'] = [{'type': r['type'], 'value': r['repr'], 'bytes': r['impl']} for r in recs[5:400:60] if r['status'] == 'run']
+        # recursive derived items (Tree, List, Json, Rec) through their finite unfoldings
+        rstats, rdis, rfails = reccorr.rec_stage(cfg, exe, driver, seed, tier)
+        disagreements += rdis
+        failures += rfails
+        reccorr.merge_stats(stats, rstats)
     stats['result_classes'] = dict(classes)
     stats['distinct_nontrivial'] = len(distinct)
     stats['rule'] = ('catalogue of %d concrete Rust types (hand-picked coverage list + seeded grammar) x generated values; '
